@@ -153,3 +153,26 @@ Proof.
   rewrite len_app. destruct (len body <=? len body + len rest) eqn:L; [|apply N.leb_gt in L; lia].
   rewrite takeN_app_exact, dropN_app_exact. reflexivity.
 Qed.
+
+(* ------------------------------------------------------------------ the independent copies of the protocol constants agree *)
+
+(* lang/c/minimessage, lang/c/micromessage, their gateways and lang/python3 each carry their own copy of the
+   protocol constants; all are translated from the current sources and must equal the C++ library's *)
+Lemma protocol_constant_copies_agree :
+  c_mini_CURRENT_PROTOCOL_VERSION = c_CURRENT_PROTOCOL_VERSION /\
+  c_mini_OLDEST_SUPPORTED_PROTOCOL_VERSION = c_OLDEST_SUPPORTED_PROTOCOL_VERSION /\
+  c_micro_CURRENT_PROTOCOL_VERSION = c_CURRENT_PROTOCOL_VERSION /\
+  c_micro_OLDEST_SUPPORTED_PROTOCOL_VERSION = c_OLDEST_SUPPORTED_PROTOCOL_VERSION /\
+  c_py_CURRENT_PROTOCOL_VERSION = c_CURRENT_PROTOCOL_VERSION /\
+  c_minigw_ENCODING_DEFAULT = c_MUSCLE_MESSAGE_ENCODING_DEFAULT /\
+  c_microgw_ENCODING_DEFAULT = c_MUSCLE_MESSAGE_ENCODING_DEFAULT /\
+  c_py_ENCODING_DEFAULT = c_MUSCLE_MESSAGE_ENCODING_DEFAULT.
+Proof. repeat split; reflexivity. Qed.
+
+Lemma python_type_codes_agree :
+  c_py_B_BOOL_TYPE = c_B_BOOL_TYPE /\ c_py_B_DOUBLE_TYPE = c_B_DOUBLE_TYPE /\ c_py_B_FLOAT_TYPE = c_B_FLOAT_TYPE /\
+  c_py_B_INT64_TYPE = c_B_INT64_TYPE /\ c_py_B_INT32_TYPE = c_B_INT32_TYPE /\ c_py_B_INT16_TYPE = c_B_INT16_TYPE /\
+  c_py_B_INT8_TYPE = c_B_INT8_TYPE /\ c_py_B_MESSAGE_TYPE = c_B_MESSAGE_TYPE /\ c_py_B_POINTER_TYPE = c_B_POINTER_TYPE /\
+  c_py_B_POINT_TYPE = c_B_POINT_TYPE /\ c_py_B_RECT_TYPE = c_B_RECT_TYPE /\ c_py_B_STRING_TYPE = c_B_STRING_TYPE /\
+  c_py_B_RAW_TYPE = c_B_RAW_TYPE /\ c_py_B_ANY_TYPE = c_B_ANY_TYPE.
+Proof. repeat split; reflexivity. Qed.
